@@ -220,6 +220,16 @@ func nestedField(p *packages.Package, typ, name string, st *types.Struct) ([]str
 			}
 		}
 	}
+	if len(hits) > 1 {
+		// several fields of that type moved together (min, max): the one that kept its name
+		var same []hit
+		for _, h := range hits {
+			if h.path[len(h.path)-1] == name {
+				same = append(same, h)
+			}
+		}
+		hits = same
+	}
 	if len(hits) == 1 {
 		renamedNote.Store(p.PkgPath+"."+typ+"."+name, strings.Join(hits[0].path, "."))
 		return hits[0].path, hits[0].f
